@@ -75,13 +75,13 @@ def replay_schedule(model, cls="SinglePhaseReservoir", nx=4, nt=3, tdtype="f8"):
                    "inputs": {"t": t.tolist()}}
 
 
-def replay_errors(model, cls="SinglePhaseReservoir", which="length"):
+def replay_errors(model, cls="SinglePhaseReservoir", which="length", length=None):
     import numpy as np
     r = _real(cls, 4)
     t = np.array([0.0, 0.01, 0.03])
     try:
         if which == "length":
-            r.simulate(t, pressure_fracface=np.full(len(t) + 1, 1000.0))
+            r.simulate(t, pressure_fracface=np.full(len(t) + 1 if length is None else length, 1000.0))
         elif which == "rf":
             r.recovery_factor()
         else:
@@ -185,8 +185,8 @@ def job_schedule(job, nx, nt, tdtype="f8"):
                   replay=(replay_schedule, {"cls": cls, "nx": nx, "nt": nt, "tdtype": tdtype}))
     if tdtype != "f8":
         return
-    # wrong schedule length
-    for extra in (-1, 1, 2):
+    # wrong schedule length: every length from 0 to nt + 2 except nt (a one-element schedule broadcasts in numpy)
+    for extra in [e for e in range(-nt, 3) if e != 0]:
         def bad():
             SS.LinSolve.reset(MemoSolve())
             SS.reset_names()
@@ -200,7 +200,7 @@ def job_schedule(job, nx, nt, tdtype="f8"):
                    note=str([type(p.exc).__name__ for p in res]))
         if not ok:
             job._violation(f"{tag}/schedule length", {}, {"what": f"schedule of length {nt + extra} for {nt} times: {[type(p.exc).__name__ if p.exc else 'accepted' for p in res]}",
-                                                         "replayer": "replay_errors", "replayer_kwargs": {"cls": cls, "which": "length"}}, None)
+                                                         "replayer": "replay_errors", "replayer_kwargs": {"cls": cls, "which": "length", "length": nt + extra}}, None)
 
 
 def job_before(job, cls):
